@@ -256,7 +256,7 @@ package internal
 //@   at call AssignableTo 1 pre assert [C11,C14,C13] each-fallback-value-is-checked-against-the-output-at-its-position: arg1 == t.Outputs[idx3] && 0 <= idx3 && idx3 < len(t.Outputs)
 //@   at call AssignableTo 1 ghost na = !ret
 //@   at call errf 4 ghost na = false
-//@   at store FallbackWith 1 assert [C11,C14] fallback-recorded-only-for-a-task-that-returns-an-error: sawErr
+//@   at store FallbackWith 1 assert [C11,C14] fallback-recorded-only-for-a-task-that-returns-an-error: sawErr && val
 //@   at store FallbackWithResults 1 assert [C11,C14] recorded-fallback-values-are-the-options-arguments-one-per-output: len(val) == len(t.Outputs)
 //@   ensures [C11,C14] recorded-fallback-has-one-value-per-output: implies(t.FallbackWith, len(t.FallbackWithResults) == len(t.Outputs))
 //@   loop 1 invariant [C01,C11] predicate-function-is-a-new-object: $PREDFRESH && $MONO && !na && implies(t.FallbackWith, len(t.FallbackWithResults) == len(t.Outputs))
